@@ -29,6 +29,8 @@
                 every structural element with its operands in place, every run's mapped text
                 exactly once and in document order, nothing else
      Balance    for trees without literal braces: brace count never negative, zero at the end
+     (function of the tree: the same tree gives the same result whatever was converted before and
+      however the element object came to hold it -- checked on recorded call histories, OmmlTrace)
    DON'T-CARE (documentation silent; written as optional / multi-valued pattern items):
      * blanks anywhere;  the separator between the m:e children of a delimiter
      * n-ary operator when m:chr is absent or has no m:val: \sum (library default) or \int (OOXML)
